@@ -57,6 +57,14 @@ class Rewriter(ast.NodeTransformer):
   def __init__(self):
     self.shadow = [set()]
 
+  def visit(self, node):
+    """a replacement expression takes the source position of the expression it replaces (not, via fix_missing_locations, the span of
+    the enclosing statement): line events and tracebacks of the rewritten code then follow the original source"""
+    new = super().visit(node)
+    if isinstance(new, ast.AST) and new is not node and isinstance(node, ast.expr) and not hasattr(new, 'lineno'):
+      ast.copy_location(new, node)
+    return new
+
   def _shadowed(self, name):
     return any(name in s for s in self.shadow)
 
